@@ -48,7 +48,7 @@ def exact_indices(n, C, u0, last_pos):
     j = 0
     for i in range(n):
         pos = (u0 + i) / n
-        while j < m and pos > C[j]:
+        while j < m and pos >= C[j]:  # half-open cells [C_{j-1}, C_j): a zero-weight index owns no position
             j += 1
         idx.append(j if j < m else -1)
     return idx
